@@ -276,10 +276,12 @@ def main():
     dl = ck.deadline
     layouts = list(itertools.product(STATES, repeat=4))
     L = 3 if quick else 4
-    for n in range(0, L + 1):
+    def seq_phase(n):
         seqs = list(itertools.product(range(len(POOL)), repeat=n))
         shards = [([s], layouts[k::3], [0x00, 0xBE, 0xFF], 'asan', dl) for s in seqs for k in range(3)]
         engine.phase(ck, 'search-path sequences of length %d x 81 layouts x %d names x 3 fill bytes' % (n, len(NAMES)), shard, shards, sequences=len(seqs))
+    for n in range(0, 3):
+        seq_phase(n)
     # entries that are there but are neither regular files nor directories (a FIFO, a link to a device, a dangling link) and links
     # to regular files: one of them in one directory, the others absent or holding the regular file
     special = []
@@ -294,6 +296,8 @@ def main():
     shards = [([s], special[k::2], [0xBE], 'asan', dl) for s in seqs for k in range(2)]
     engine.phase(ck, 'search-path sequences of length 1..2 x %d layouts with a FIFO / device link / dangling link / link to a regular file' % len(special),
                  shard, shards, sequences=len(seqs))
+    for n in range(3, L + 1):
+        seq_phase(n)        # the longest sequences last: everything above has run when the deadline cuts them short
     if not quick:
         seqs = list(itertools.product(range(len(POOL)), repeat=1)) + [()]
         shards = [([s], layouts[::9], [None], 'msan', dl) for s in seqs]
